@@ -221,23 +221,8 @@ Proof.
   - unfold clear_with_descs. rewrite Hm. apply Shrinks_refl.
 Qed.
 
-Lemma clear_no_rg_Shrinks st i : Shrinks st (clear_no_rg st i).
-Proof.
-  destruct (mem_node (node_of i) (s_nodes st)) eqn:Hm.
-  - pose proof (clear_no_rg_Cleared st i Hm) as CL. constructor.
-    + exact (cl_cells _ _ _ CL).
-    + exact (cl_refs _ _ _ CL).
-    + intros x H. unfold has in *. rewrite (cl_data _ _ _ CL) in H.
-      destruct (mem_node (node_of x) (descs_with st (node_of i))); [now elim H|exact H].
-    + intros x H. unfold has in H. rewrite (cl_data _ _ _ CL) in H. rewrite (cl_inputs _ _ _ CL).
-      destruct (mem_node (node_of x) (descs_with st (node_of i))); [now elim H|]. simpl. apply andb_true_r.
-    + intros x H. apply (cl_nodes _ _ _ CL) in H. tauto.
-    + intros e H. unfold clear_no_rg in H. rewrite Hm in H.
-      set (removed := descs_with st (node_of i)) in *.
-      destruct (fold_clear_trace_fields removed (g_remove_nodes st removed)) as (_ & _ & _ & _ & _ & _ & A7 & _).
-      rewrite A7 in H. exact H.
-  - unfold clear_no_rg. rewrite Hm. apply Shrinks_refl.
-Qed.
+Lemma clear_reader_Shrinks st i : Shrinks st (clear_reader st i).
+Proof. unfold clear_reader. apply clear_with_descs_Shrinks. Qed.
 
 Lemma Shrinks_fold {A} (f : state -> A -> state) l :
   (forall s a, Shrinks s (f s a)) -> forall st, Shrinks st (fold_left f l st).
